@@ -383,7 +383,7 @@ def plan(tier, seed):
         fams.append(("two_datasets", irf))
     for irf in ("gaussian", "shifted", "dispersed"):
         fams.append(("pfid", irf))
-    fams += [("spectral", "none"), ("spectral", "gaussian"), ("clp_guide", "none"), ("split", "none"), ("split", "gaussian")]
+    fams += [("spectral", "none"), ("spectral", "gaussian"), ("spectral", "dispersed"), ("spectral", "shifted"), ("clp_guide", "none"), ("split", "none"), ("split", "gaussian")]
     combos = MIXED_QUICK if tier == "quick" else MIXED_COMBOS
     for k, combo in enumerate(combos):
         for irf in (("gaussian", "shifted") if tier == "thorough" else (("gaussian",) if k % 2 == 0 else ("shifted",))):
